@@ -68,6 +68,13 @@ class SplineMethod(SamplingMethod):
             B = evalf(B)
         except:
             raise Exception("Only linear systems supported in SplineMethod")
+        # The Jacobians do not see a constant (or parameter) term in the dynamics; it cannot be represented either
+        try:
+            offset = evalf(ode.call(dict(args, x=DM.zeros(args["x"].sparsity()), u=DM.zeros(args["u"].sparsity())), True, False)["ode"])
+        except:
+            raise Exception("Only linear systems (without parameter-dependent term) supported in SplineMethod")
+        if float(ca.norm_inf(offset))!=0:
+            raise Exception("Only linear systems (without constant term) supported in SplineMethod")
         # Obtain chains of differentiations (scalarised)
 
         # Use combined index: v=[x;u]
